@@ -78,8 +78,35 @@ def check_batch(o):
     return bad
 
 
+class _ShapeModel:
+    """GMRFModel (Vectorizable samples: one 1-D point per vertex) seen through the vector interface of _check_stats"""
+
+    def __init__(self, m):
+        self.m = m
+
+    @staticmethod
+    def shapes(rows):
+        from menpo.shape import PointCloud
+
+        return [PointCloud(np.asarray(r, dtype=float).reshape(-1, 1)) for r in rows]
+
+    precision = property(lambda self: self.m.precision)
+    mean_vector = property(lambda self: self.m.mean_vector)
+    n_samples = property(lambda self: self.m.n_samples)
+
+    def mean(self):
+        return self.m.mean().as_vector()
+
+    def mahalanobis_distance(self, q):
+        q = np.asarray(q, dtype=float)
+        return self.m.mahalanobis_distance(self.shapes(q) if q.ndim == 2 else self.shapes([q])[0])
+
+    def increment(self, rows):
+        self.m.increment(self.shapes(rows))
+
+
 def check_incr(o):
-    from menpo.model import GMRFVectorModel
+    from menpo.model import GMRFModel, GMRFVectorModel
 
     bad = []
     c = o["case"]
@@ -87,14 +114,17 @@ def check_incr(o):
     data = np.array(o["data"], dtype=float)
     comp = c["comp"]
     for gname, g in _graphs(nv, c["E"])[:1]:
-        for sparse in (True, False):
+        for sparse, shaped in ((True, False), (False, False), (True, True), (False, True)):
             a = comp[0]
-            m = GMRFVectorModel(data[:a].copy(), g, mode=c["mode"], sparse=sparse, bias=c["bias"], incremental=True)
+            if shaped:
+                m = _ShapeModel(GMRFModel(_ShapeModel.shapes(data[:a]), g, mode=c["mode"], sparse=sparse, bias=c["bias"], incremental=True))
+            else:
+                m = GMRFVectorModel(data[:a].copy(), g, mode=c["mode"], sparse=sparse, bias=c["bias"], incremental=True)
             for k, st in enumerate(o["steps"]):
                 if k > 0:
                     m.increment(data[a:a + comp[k]].copy())
                     a += comp[k]
-                tag = "%s storage after %d increment(s) (chunks %s)" % ("sparse" if sparse else "dense", k, comp[:k + 1])
+                tag = "%s, %s storage after %d increment(s) (chunks %s)" % ("GMRFModel" if shaped else "GMRFVectorModel", "sparse" if sparse else "dense", k, comp[:k + 1])
                 r = _check_stats(m, st, o["queries"], tag, 1e-8, nv, c["E"])
                 if r:
                     bad.append((r, {"edges": c["E"], "mode": c["mode"], "bias": c["bias"], "composition": comp}, None))
@@ -112,18 +142,28 @@ def check_blocks(o):
     rng = np.random.RandomState(11)
     data = rng.randint(0, 7, size=(9, nv * k)).astype(float) + rng.rand(9, nv * k) * 0.25
     pl = o["placement"]
+    nc = c["ncomp"]
+
+    def binv(C):
+        C = np.atleast_2d(C)
+        if nc == 0:
+            return np.linalg.inv(C)
+        w, V = np.linalg.eigh(C)
+        j = np.argsort(w)[::-1][:nc]
+        return (V[:, j] / w[j]) @ V[:, j].T
+
     Q = np.zeros((nv * k, nv * k))
     if pl["edges"]:
         for e in pl["edges"]:
             a, b = slice(e["a"]["from"], e["a"]["to"]), slice(e["b"]["from"], e["b"]["to"])
             if c["mode"] == "concatenation":
-                inv = np.linalg.inv(np.atleast_2d(np.cov(np.hstack([data[:, a], data[:, b]]), rowvar=0, bias=c["bias"])))
+                inv = binv(np.cov(np.hstack([data[:, a], data[:, b]]), rowvar=0, bias=c["bias"]))
                 Q[a, a] += inv[:k, :k]
                 Q[b, b] += inv[k:, k:]
                 Q[a, b] += inv[:k, k:]
                 Q[b, a] += inv[k:, :k]
             else:
-                inv = np.linalg.inv(np.atleast_2d(np.cov(data[:, a] - data[:, b], rowvar=0, bias=c["bias"])))
+                inv = binv(np.cov(data[:, a] - data[:, b], rowvar=0, bias=c["bias"]))
                 Q[a, a] += inv
                 Q[b, b] += inv
                 Q[a, b] -= inv
@@ -131,15 +171,15 @@ def check_blocks(o):
     else:
         for r in pl["diagonal"]:
             a = slice(r["from"], r["to"])
-            Q[a, a] = np.linalg.inv(np.atleast_2d(np.cov(data[:, a], rowvar=0, bias=c["bias"])))
+            Q[a, a] = binv(np.cov(data[:, a], rowvar=0, bias=c["bias"]))
     mean = data.mean(axis=0)
     qs = np.vstack([mean + 1.0, mean * 0.5, np.arange(nv * k, dtype=float)])
     want_m = np.einsum("ij,jk,ik->i", qs - mean, Q, qs - mean)
     for gname, g in _graphs(nv, c["E"]):
         models = {}
         for sparse in (True, False):
-            tag = "k=%d %s graph, %s storage" % (k, gname, "sparse" if sparse else "dense")
-            m = GMRFVectorModel(data.copy(), g, mode=c["mode"], sparse=sparse, bias=c["bias"])
+            tag = "k=%d n_components=%s %s graph, %s storage" % (k, nc or None, gname, "sparse" if sparse else "dense")
+            m = GMRFVectorModel(data.copy(), g, mode=c["mode"], sparse=sparse, bias=c["bias"], n_components=nc or None)
             try:
                 P = _dense(m.precision).astype(float)
             except Exception as e:
